@@ -171,7 +171,7 @@ def _chunk(args):
             if time.time() > deadline:
                 break
             rs = run_seed_for(base, engine.name, prop, i)
-            faulthandler.dump_traceback_later(240, exit=True)
+            faulthandler.dump_traceback_later(600, exit=True)
             try:
                 out, sc, trec, srec = run_one(
                     engine, prop, tier, run_seed=rs,
@@ -309,7 +309,7 @@ def batch(engine, prop, tier, base, budget_s, procs, max_runs=None,
     for _ in range(procs):
         if not submit():
             break
-    hard_deadline = deadline + 400
+    hard_deadline = deadline + 900
     while live:
         r, _, _ = select.select(list(live), [], [], 5.0)
         if not r:
